@@ -240,8 +240,10 @@ def condom(f):
         The Z3 condom intercepts Z3Exceptions and throws a ClaripyZ3Error instead.
         """
         handler_installed = False
+        # enter before the try block: if entering fails (e.g. an interrupt while waiting for the lock) there is
+        # nothing to undo, and an unmatched _exit_z3() would release a call that another thread still has in progress
+        _enter_z3()
         try:
-            _enter_z3()
             handler_installed = install_sigint_handler()
             return f(*args, **kwargs)
         except z3.Z3Exception as ze:
